@@ -23,7 +23,7 @@ RULE = (
     "distinct = canonical spec hash + settings"
 )
 REQUIRED = ["finite", "converged.resweep", "sweeps.bound", "exception.type", "phys.polarity", "phys.no_gain",
-            "law.vout", "law.iin", "benign.solved", "benign.matches_reference", "overload.decided"]
+            "law.vout", "law.iin", "benign.solved", "benign.matches_reference", "benign.tighter_is_closer", "overload.decided"]
 SIZES = {"quick": 260, "thorough": 1600}
 ASSUMPTIONS = [
     "the literal loop bound of the code is maxiter+1 sweeps (while iters <= maxiter); the monitor uses that bound",
@@ -262,6 +262,31 @@ def benign(ctx, case, spec, st, df, det):
                 if not tt.i(x[C[k]], r[k]):
                     bad.append((p, n, k, x[C[k]], r[k]))
     ctx.check("benign.matches_reference", not bad, dict(det, differences_table_vs_reference=bad[:6]))
+    # tightening the tolerances tightens the answer: distance to the reference steady state must not grow
+    st_, sysobj = H.try_build(spec)
+    errs = {}
+    for t in (1e-3, 1e-6, 1e-10):
+        s2, d2 = H.solve(sysobj, vtol=t, itol=t)
+        if s2 != "ok":
+            errs[t] = None
+            continue
+        _, per2, _ = M.split_table(d2)
+        e = 0.0
+        for p in phases:
+            tt = H.TwinTol(per2[p]["rows"], rel=0.0, k=20.0)  # absolute allowance from numpy's fixed atol=1e-8
+            for n, r in refs[p].items():
+                x = per2[p]["rows"][n]
+                for k, allow in (("vout", tt.dV), ("iin", tt.dI)):
+                    ref_v = r[k]
+                    if abs(ref_v) > 0:
+                        e = max(e, max(0.0, abs(x[C[k]] - ref_v) - allow) / abs(ref_v))
+        errs[t] = e
+    if all(v is not None for v in errs.values()):
+        ok = errs[1e-10] <= max(errs[1e-6], 1e-9) * 1.5 + 1e-9 and errs[1e-6] <= max(errs[1e-3], 1e-7) * 1.5 + 1e-7 and errs[1e-10] <= 1e-6
+        ctx.check("benign.tighter_is_closer", ok, dict(det, relative_error_vs_reference={str(k): v for k, v in errs.items()}))
+    else:
+        ctx.check("benign.solved_at_all_tolerances", errs[1e-3] is not None and errs[1e-6] is not None,
+                  dict(det, errors={str(k): v for k, v in errs.items()}))
 
 
 def _bucket(n):
